@@ -144,10 +144,10 @@ template <class T> static void triangle_stage ()
     static const int IN[][3]  = {{4, 2, 2}, {2, 4, 2}, {2, 2, 4}, {6, 1, 1}, {1, 6, 1}, {1, 1, 6}, {3, 3, 2}, {1, 3, 4}, {5, 2, 1}};
     static const int OUT[][3] = {{-8, 8, 8}, {8, -8, 8}, {8, 8, -8}, {-1, 5, 4}, {4, -1, 5}, {5, 4, -1}, {24, -8, -8}, {-8, 24, -8}, {-8, -8, 24},
                                  {-2, 10, 0}, {12, -4, 0}, {0, -2, 10}, {9, 0, -1}, {-1, 8, 1}, {1, -1, 8}};
-    std::atomic<ll> hits (0), misses (0), fronts (0), backs (0), parallel (0), degen (0), graze (0), nearedge (0);
+    std::atomic<ll> hits (0), misses (0), fronts (0), backs (0), parallel (0), degen (0), graze (0), nearedge (0), before (0), beyond (0), inplane (0);
     std::mutex mm; double worst = 0;
     bool ok = parallel_chunks (V.size () * V.size (), 4, [&] (uint64_t lo, uint64_t hi, unsigned) {
-        ll k_hit = 0, k_miss = 0, k_f = 0, k_b = 0, k_par = 0, k_deg = 0, k_gr = 0, k_ne = 0; double lw = 0;
+        ll k_hit = 0, k_miss = 0, k_f = 0, k_b = 0, k_par = 0, k_deg = 0, k_gr = 0, k_ne = 0, k_before = 0, k_beyond = 0, k_inplane = 0; double lw = 0;
         for (uint64_t i = lo; i < hi; ++i)
         {
             I3 v0 = V[i / V.size ()], v1 = V[i % V.size ()];
@@ -188,13 +188,19 @@ template <class T> static void triangle_stage ()
                             if (intersect (l, a0, a1, a2, pt, bc, fr)) R ().fail ("intersect(triangle).true-on-parallel-line", tri + " line through " + s (o) + " dir " + s (v), "false", "true");
                             continue;
                         }
-                        Line3<T> l (X - vv * (T) 2, X + vv);
+                        // the line origin before the triangle (hit at t > 0), beyond it (t < 0) and exactly in its plane
+                        // (t = 0): the hit, the barycentrics and the front flag belong to the LINE, not to a ray
+                        for (int pk = -2; pk <= 1; ++pk)
+                        {
+                        if (pk == -1) continue;
+                        Line3<T> l (X + vv * (T) pk, X + vv * (T) (pk + 3));
+                        (pk < 0 ? k_before : pk > 0 ? k_beyond : k_inplane)++;
                         LD k2 = (LD) NN * dot (v, v) / ((LD) nv * nv);
                         LD S = l1 (XL) + l1 (toL (l.pos)) + 4;
                         LD tolp = 32 * e * S * k2, tolb = 64 * e * L / h + 4 * tolp / h;
                         if (!(tolb < 1.0L / 16)) { ++k_gr; continue; }
                         bool r = intersect (l, a0, a1, a2, pt, bc, fr);
-                        auto in = [&] () { return tri + " weights/8=(" + std::to_string (w[0]) + "," + std::to_string (w[1]) + "," + std::to_string (w[2]) + ") Line3(X-2v, X+v) v=" + s (v); };
+                        auto in = [&] () { return tri + " weights/8=(" + std::to_string (w[0]) + "," + std::to_string (w[1]) + "," + std::to_string (w[2]) + ") Line3(X+" + std::to_string (pk) + "v, X+" + std::to_string (pk + 3) + "v) v=" + s (v); };
                         if (!interior)
                         {
                             ++k_miss;
@@ -218,6 +224,7 @@ template <class T> static void triangle_stage ()
                             L3 rep = toL (v0) * (LD) bc.x + toL (v1) * (LD) bc.y + toL (v2) * (LD) bc.z;
                             if (!(linf (rep - toL (pt)) <= 4 * tolb * L + tolp)) R ().fail ("intersect(triangle).barycentric-reproduces-pt", in (), s (pt), s (rep));
                         }
+                        } // pk
                     }
                 };
                 for (auto& w : IN) run (w, true);
@@ -225,6 +232,7 @@ template <class T> static void triangle_stage ()
             }
         }
         hits += k_hit; misses += k_miss; fronts += k_f; backs += k_b; parallel += k_par; degen += k_deg; graze += k_gr; nearedge += k_ne;
+        before += k_before; beyond += k_beyond; inplane += k_inplane;
         std::lock_guard<std::mutex> g (mm); worst = std::max (worst, lw);
     });
     ll n = hits + misses + parallel + degen;
@@ -233,8 +241,9 @@ template <class T> static void triangle_stage ()
     R ().cls ("triangle.line-through-interior", hits); R ().cls ("triangle.line-misses-closed-triangle", misses);
     R ().cls ("triangle.front-facing", fronts); R ().cls ("triangle.back-facing", backs); R ().cls ("triangle.line-parallel-to-plane", parallel);
     R ().cls ("triangle.degenerate", degen); R ().cls ("triangle.hit-near-edge-or-vertex", nearedge);
+    R ().cls ("triangle.line-origin-before-the-plane(t>0)", before); R ().cls ("triangle.line-origin-beyond-the-plane(t<0)", beyond); R ().cls ("triangle.line-origin-in-the-plane(t=0)", inplane);
     R ().note_max (std::string ("worst barycentric error / tolerance, ") + tname<T> (), worst);
-    if (ok) R ().stage_done ("all 19683 ordered vertex triples of L(1)^3 x (9 interior + 15 exterior targets) x 26 line directions");
+    if (ok) R ().stage_done ("all 19683 ordered vertex triples of L(1)^3 x (9 interior + 15 exterior targets) x 26 line directions x 3 line origins (before / in / beyond the plane)");
     else R ().stage_partial ("deadline");
 }
 void run_triangle () { triangle_stage<float> (); triangle_stage<double> (); }
